@@ -8,7 +8,8 @@ STANDING_TRUST = [
 ]
 
 VERUS_UNITS = {
-    'U-MP': dict(module='contracts.verus.msgpack_size', min_verified=37, timeout=600, paired_kani=['mp_size_matches_exec_spec'],
+    'U-MP': dict(module='contracts.verus.msgpack_size', min_verified=37, timeout=600,
+                 native_search=dict(src='src/msgpack.rs', file='msgpack_search.rs'),
                  props=['C18', 'C04', 'C02', 'C03']),
 }
 
@@ -126,8 +127,6 @@ HARNESSES = [
     H('U-MP-T', 'msgpack', 'mp_slice_deserializers_get_depth_limit', 'bounded-size', ['C18'], bounds='slice input <= 2 B',
       fns=['msgpack::transcode (slice loop)'], timeout=600, min_covers=1,
       assumes=['rmp_serde::Deserializer::set_max_depth stubbed by a probe that records its argument', 'next_value_size replaced by its proved contract']),
-    H('U-MP', 'msgpack', 'mp_size_matches_exec_spec', 'bounded', ['C18'], tier='never', bounds='input <= 3 B, depth <= 2 (replay pair of the Verus unit; only run to look for a concrete failing input)',
-      fns=['msgpack::next_value_size'], timeout=900),
     # ---- U-PRS / U-CHK ----
     H('U-PRS', 'parser', 'read_handler_contract', 'bounded-size', ['C17', 'C12', 'C04'], bounds='libyaml buffer <= 4 B (+2 canary bytes); reader may lie about any length or fail',
       fns=['yaml::chunker::parser::Parser::read_handler'], timeout=600, min_covers=4),
@@ -165,6 +164,18 @@ HARNESSES = [
       assumes=['serde protocol: one visit_* per deserialize_any; Serialize::serialize called at most once per element']),
     H('U-TX', 'stream', 'tx_error_attribution_depth2', 'bounded', ['C11', 'C12', 'C01'], tier='thorough', bounds='mock nesting depth 2 (collections in element, key and value position)',
       fns=['transcode::stream::transcode'], timeout=3600, min_covers=3),
+    H('U-TX', 'stream', 'tx_json_e2e_seq', 'bounded', ['C01', 'C06', 'C03'], bounds='document [bool, null]; REAL serde_json serializer behind the REAL transcoder',
+      fns=['transcode::stream::transcode', 'transcode::stream::Visitor::visit_seq', 'transcode::stream::Visitor::visit_map', 'transcode::stream::Forwarder::serialize_with_seed'], timeout=900, min_covers=0),
+    H('U-TX', 'stream', 'tx_json_e2e_map', 'bounded', ['C01', 'C06'], bounds='document {"k": bool}; REAL serde_json serializer behind the REAL transcoder',
+      fns=['transcode::stream::transcode', 'transcode::stream::Visitor::visit_seq', 'transcode::stream::Visitor::visit_map', 'transcode::stream::Forwarder::serialize_with_seed'], timeout=900, min_covers=0),
+    H('U-TX', 'stream', 'tx_json_e2e_unrepresentable_key_blames_serializer', 'bounded', ['C11', 'C04'], bounds='document {null: null}; REAL serde_json serializer behind the REAL transcoder',
+      fns=['transcode::stream::transcode', 'transcode::stream::Visitor::visit_seq', 'transcode::stream::Visitor::visit_map', 'transcode::stream::Forwarder::serialize_with_seed'], timeout=900, min_covers=0),
+    H('U-TX', 'stream', 'tx_json_e2e_writer_fault_at_any_byte', 'bounded', ['C11', 'C12'], bounds='document [true,{"k":null}], writer fails at every byte offset of the 17-byte output; REAL serde_json serializer behind the REAL transcoder',
+      fns=['transcode::stream::transcode', 'transcode::stream::Visitor::visit_seq', 'transcode::stream::Visitor::visit_map', 'transcode::stream::Forwarder::serialize_with_seed'], timeout=900, min_covers=3),
+    H('U-TX', 'stream', 'tx_msgpack_e2e_seq_u64_bool', 'bounded', ['C01', 'C06'], bounds='document [u64, bool], every 64-bit value; REAL rmp_serde serializer behind the REAL transcoder',
+      fns=['transcode::stream::transcode', 'transcode::stream::Visitor::visit_u64', 'transcode::stream::Visitor::visit_seq', 'transcode::stream::Visitor::visit_map'], timeout=900, min_covers=2),
+    H('U-TX', 'stream', 'tx_msgpack_e2e_map', 'bounded', ['C01', 'C06'], bounds='document {"k": null}; REAL rmp_serde serializer behind the REAL transcoder',
+      fns=['transcode::stream::transcode', 'transcode::stream::Visitor::visit_u64', 'transcode::stream::Visitor::visit_seq', 'transcode::stream::Visitor::visit_map'], timeout=900, min_covers=0),
     H('U-VAL', 'value', 'value_scalar_types_and_bits_kept', 'complete', ['C01', 'C06'], bounds='18 visit forms (all scalar widths, char, unit, three string forms) x every 128-bit payload',
       fns=['transcode::value::Value::deserialize', 'transcode::value::Value::serialize'], timeout=900, min_covers=4),
     # ---- U-YML / U-TOML / U-JSN / U-LIB / U-EXT ----
@@ -205,6 +216,24 @@ HARNESSES = [
     H('U-JSN', 'json', 'json_input_matches_mapping_io_error', 'complete', ['C09', 'C12'], bounds='every slice <= 3 B; source fails during the trial',
       fns=['json::input_matches'], timeout=900, min_covers=1,
       assumes=['serde_json trial stubbed by its assumed contract; serde_json::Error::is_io stubbed by the ghost category of the error the stub produced']),
+    H('U-JSN', 'json', 'json_output_value_framing_ok', 'complete', ['C03', 'C12'], bounds='one document; serializer body stubbed',
+      fns=['json::Output::transcode_value'], timeout=600, assumes=['serde_json::to_writer stubbed: writes a marker through the writer or fails']),
+    H('U-JSN', 'json', 'json_output_value_framing_body_fails', 'complete', ['C03', 'C12'], bounds='serializer refuses the document',
+      fns=['json::Output::transcode_value'], timeout=600, assumes=['serde_json::to_writer stubbed']),
+    H('U-JSN', 'json', 'json_output_value_framing_newline_write_fails', 'complete', ['C12'], bounds='writer fails on the framing newline',
+      fns=['json::Output::transcode_value'], timeout=600, assumes=['serde_json::to_writer stubbed']),
+    H('U-JSN', 'json', 'json_output_from_null_document_is_one_line', 'complete', ['C03', 'C01'], bounds='document = null; REAL transcoder and REAL serde_json serializer',
+      fns=['json::Output::transcode_from', 'transcode::stream::transcode'], timeout=600),
+    H('U-JSN', 'json', 'json_output_from_true_document_is_one_line', 'complete', ['C03', 'C01'], bounds='document = true; REAL transcoder and REAL serde_json serializer',
+      fns=['json::Output::transcode_from', 'transcode::stream::transcode'], timeout=600),
+    H('U-JSN', 'json', 'json_output_from_failed_document_not_framed', 'complete', ['C03', 'C11', 'C12'], bounds='deserializer fails; REAL transcoder and REAL serde_json serializer',
+      fns=['json::Output::transcode_from', 'transcode::stream::transcode'], timeout=600),
+    H('U-JSN', 'json', 'json_output_from_writer_fault_at_newline', 'complete', ['C12', 'C11'], bounds='writer fails exactly at the framing newline; REAL transcoder and REAL serde_json serializer',
+      fns=['json::Output::transcode_from', 'transcode::stream::transcode'], timeout=600),
+    H('U-YML', 'yaml', 'yaml_output_value_framing_ok', 'complete', ['C03', 'C12'], bounds='one document; serializer body stubbed',
+      fns=['yaml::Output::transcode_value'], timeout=600, assumes=['serde_yaml::to_writer stubbed: writes a marker through the writer or fails']),
+    H('U-YML', 'yaml', 'yaml_output_value_framing_separator_write_fails', 'complete', ['C12'], bounds='writer fails inside the --- line',
+      fns=['yaml::Output::transcode_value'], timeout=600, assumes=['serde_yaml::to_writer stubbed']),
     H('U-LIB', 'lib', 'translator_flush_forwards_to_writer', 'complete', ['C12'], bounds='4 output formats x 4 writer flush results',
       fns=['Translator::flush', 'Dispatcher::flush', 'json::Output::flush', 'msgpack::Output::flush', 'toml::Output::flush', 'yaml::Output::flush'], timeout=300, min_covers=2),
     H('U-EXT', 'main', 'extension_table', 'complete', ['C14'], bounds='every extension byte string of length 0..=7, present or absent',
